@@ -95,6 +95,14 @@ attribute [z80ctl] exec execOpt execMain execXY execXYtail execXYCB Spec.execute
 @[z80helper] theorem fold_ins_lo (n : U8) (v : U16) : n.setWidth 16 ||| (v &&& 0xff00#16) = mk16 (hi8 v) n := by
   unfold mk16 hi8; bits16
 
+-- the same packings with the operands of `|` the other way round (a harmless re-spelling of the Go source must not break an obligation)
+@[z80helper] theorem fold_mk16_c (h l : U8) : l.setWidth 16 ||| (h.setWidth 16 <<< 8) = mk16 h l := by
+  rw [BitVec.or_comm]; rfl
+@[z80helper] theorem fold_ins_hi_c (n : U8) (v : U16) : (v &&& 0x00ff#16) ||| (n.setWidth 16 <<< 8) = mk16 n (lo8 v) := by
+  rw [BitVec.or_comm]; exact fold_ins_hi n v
+@[z80helper] theorem fold_ins_lo_c (n : U8) (v : U16) : (v &&& 0xff00#16) ||| n.setWidth 16 = mk16 (hi8 v) n := by
+  rw [BitVec.or_comm]; exact fold_ins_lo n v
+
 @[z80helper] theorem fold_mk16_and_fe (h v : U8) :
     (h.setWidth 16 <<< 8) ||| (v.setWidth 16 &&& 254#16) = mk16 h (v &&& 254#8) := by
   unfold mk16; bits16
